@@ -29,8 +29,72 @@ theorem trailOk_delim {g : List Char} (h : trailOk g = true) : Delim g := by
     simp only [trailOk, Bool.and_eq_true, isSepChar_eq] at h
     exact h.1
 
-theorem trailOk_gap {g : List Char} (h : trailOk g = true) : gapAux true false g = true := by
-  simp only [trailOk, Bool.and_eq_true] at h; exact h.2
+theorem endAt_spec {g : List Char} (h : endAt g = true) :
+    ∃ s junk, g = s ++ junk ∧ EndSpelled s ∧ ∀ c r, junk = c :: r → isId c = false := by
+  unfold endAt at h
+  split at h
+  · rename_i e n d rest
+    simp only [Bool.and_eq_true, Bool.or_eq_true, beq_iff_eq] at h
+    refine ⟨['.', e, n, d], rest, rfl, ⟨e, n, d, rfl, h.1.1.1, h.1.1.2, h.1.2⟩, ?_⟩
+    intro c r hr
+    subst hr
+    simpa [isIdChar_eq] using h.2
+  · cases h
+
+/-- a trail is a gap up to the end of the text, or a closed gap, `.end` and ignored text -/
+theorem trailAux_split : ∀ (g : List Char) (st : Bool), trailAux st g = true →
+    gapAux true st g = true ∨
+    ∃ g0 s junk, g = g0 ++ (s ++ junk) ∧ gapAux false st g0 = true ∧ EndSpelled s ∧
+      ∀ c r, junk = c :: r → isId c = false := by
+  intro g
+  induction g with
+  | nil => intro st _; left; cases st <;> rfl
+  | cons c cs ih =>
+    intro st h
+    cases st with
+    | true =>
+      simp only [trailAux] at h
+      cases hc : (c == '\n') with
+      | true =>
+        simp only [hc, if_true] at h
+        rcases ih false h with h1 | ⟨g0, s, junk, e, hg, hs, hj⟩
+        · left; simp only [gapAux, hc, if_true, h1]
+        · right; exact ⟨c :: g0, s, junk, by rw [e]; rfl, by simp only [gapAux, hc, if_true, hg], hs, hj⟩
+      | false =>
+        simp only [hc, Bool.false_eq_true, if_false] at h
+        rcases ih true h with h1 | ⟨g0, s, junk, e, hg, hs, hj⟩
+        · left; simp only [gapAux, hc, Bool.false_eq_true, if_false, h1]
+        · right
+          exact ⟨c :: g0, s, junk, by rw [e]; rfl,
+            by simp only [gapAux, hc, Bool.false_eq_true, if_false, hg], hs, hj⟩
+    | false =>
+      simp only [trailAux] at h
+      cases hc : (c == ';') with
+      | true =>
+        simp only [hc, if_true] at h
+        rcases ih true h with h1 | ⟨g0, s, junk, e, hg, hs, hj⟩
+        · left; simp only [gapAux, hc, if_true, h1]
+        · right; exact ⟨c :: g0, s, junk, by rw [e]; rfl, by simp only [gapAux, hc, if_true, hg], hs, hj⟩
+      | false =>
+        simp only [hc, Bool.false_eq_true, if_false] at h
+        cases he : endAt (c :: cs) with
+        | true =>
+          obtain ⟨s, junk, e, hs, hj⟩ := endAt_spec he
+          right; exact ⟨[], s, junk, e, rfl, hs, hj⟩
+        | false =>
+          simp only [he, Bool.false_eq_true, if_false, Bool.and_eq_true] at h
+          rcases ih false h.2 with h1 | ⟨g0, s, junk, e, hg, hs, hj⟩
+          · left; simp only [gapAux, hc, Bool.false_eq_true, if_false, h.1, h1, Bool.and_self]
+          · right
+            exact ⟨c :: g0, s, junk, by rw [e]; rfl,
+              by simp only [gapAux, hc, Bool.false_eq_true, if_false, h.1, hg, Bool.and_self], hs, hj⟩
+
+/-- after a well-formed trail the preprocessor stops -/
+theorem trailOk_ends (feat : Option Bool) {g : List Char} (h : trailOk g = true) : TrailEnds feat g := by
+  simp only [trailOk, Bool.and_eq_true] at h
+  rcases trailAux_split g false h.2 with h1 | ⟨g0, s, junk, e, hg, hs, hj⟩
+  · exact trailEnds_eof feat g h1
+  · rw [e]; exact trailEnds_end feat g0 s junk hg hs hj
 
 theorem okToks_cons {names : Nat → List Char} {first : Bool} {ls : List TokLay} {t : Tok} {ts : List Tok}
     (h : okToks names first ls (t :: ts) = true) :
